@@ -1,6 +1,6 @@
 (* Properties/C07.v — Diff reports exactly the differences, in a deterministic order. *)
 From Coq Require Import List String Bool ZArith Arith.
-From YT Require Import Base.Str Base.KV Base.Sort Model.Doc Model.Dom Model.Equals Model.Diff Proofs.DiffProofs Proofs.DiffOrderProofs Proofs.DiffNilProofs.
+From YT Require Import Base.Str Base.KV Base.Sort Model.Doc Model.Dom Model.Equals Model.Diff Proofs.DiffProofs Proofs.DiffOrderProofs Proofs.DiffNilProofs Model.Path Proofs.ReconstructKeyedProofs Proofs.DiffSpecProofs Proofs.DiffNoDupProofs.
 Import ListNotations.
 Local Open Scope list_scope.
 
@@ -76,6 +76,24 @@ Theorem C07_diff_nil_same_leaves : forall l r,
   diff l r = [] -> forall e, In e (flatten l) <-> In e (flatten r).
 Proof. exact diff_nil_flatten. Qed.
 Print Assumptions C07_diff_nil_same_leaves.
+
+(* "It contains exactly … and nothing else": membership in Diff(L,R) is characterised by a
+   declarative relation over positions (dspec: one constructor per clause of the statement — a
+   differing scalar, a differing list, a kind mismatch, a key only the left has, a key only the
+   right has, descent through a common key), with no reference to the algorithm's traversal. *)
+Theorem C07_diff_members_exact : forall l r m,
+  wf l = true -> keys_safe l = true -> wf r = true -> keys_safe r = true ->
+  (In m (diff l r) <-> exists tau sh, dspec l r tau sh /\ m = mk ""%string tau sh).
+Proof. exact diff_members_exact. Qed.
+Print Assumptions C07_diff_members_exact.
+
+(* "exactly ONE Add per leaf, ONE Delete per key, ONE Change per scalar": no modification occurs
+   twice.  Together with C07_diff_members_exact, Diff(L,R) is a duplicate-free, path-sorted listing of
+   exactly the modifications dspec describes. *)
+Theorem C07_diff_nodup : forall l r,
+  wf l = true -> keys_safe l = true -> wf r = true -> keys_safe r = true -> NoDup (diff l r).
+Proof. exact diff_nodup. Qed.
+Print Assumptions C07_diff_nodup.
 
 (* non-vacuity: all five kinds of difference, with a Delete/Add tie on one path *)
 Example C07_ex :
